@@ -53,6 +53,9 @@ pub struct SimSpec {
     pub chatter: Vec<String>,
     pub terminal_tid: Option<String>,
     pub terminal_serial: Option<String>,
+    /// hex of the intermediate status packet (None: `04 ff 02 17 00`)
+    #[serde(default)]
+    pub intermediate_body: Option<String>,
 }
 
 #[derive(Serialize, Deserialize, Clone, Debug, PartialEq)]
@@ -116,6 +119,7 @@ pub fn run_scenario(sc: &Scenario) -> Trace {
     if sc.observe_new {
         sim.dangling = sc.sim.dangling;
     }
+    sim.intermediate_body = sc.sim.intermediate_body.as_ref().map(|h| crate::engine::unhex(h));
     sim.card_replies = sc.sim.card_replies.iter().map(|h| crate::engine::unhex(h)).collect();
     sim.reversal_status = sc.sim.reversal_status.iter().map(|h| crate::engine::unhex(h)).collect();
     sim.chatter = sc.sim.chatter.iter().map(|h| crate::engine::unhex(h)).collect();
